@@ -19,6 +19,25 @@ def run(tier, seed):
         # the driver died although it guards each call: report as a crash line so that the spec rejects it
         with open(trace, 'a') as f:
             f.write('\n{"e":"Sort","kind":"event","keys":[],"in":[],"crash":true}\n')
+    # every length 0..4200 on the sanitizer build (events and instants, two input shapes each): the buffers and block sizes of the
+    # merge change with the length; only whether each call came back is recorded (a sanitizer report ends the process)
+    import os
+    B2 = vlib.build('asan'); drv2 = vlib.driver(B2, 'drv_sort')
+    env = dict(os.environ, ASAN_OPTIONS='detect_leaks=0:abort_on_error=0:exitcode=99')
+    nlen = 0
+    with open(trace, 'a') as f:
+        parts = [(0, 1400), (1401, 2400), (2401, 3100), (3101, 3700), (3701, 4200)]
+        procs = [vlib.subprocess.Popen([drv2, 'lengths', str(seed), str(a), str(b)], stdout=vlib.subprocess.PIPE, stderr=vlib.subprocess.DEVNULL, env=env, text=True) for a, b in parts]
+        for (a, b), pr in zip(parts, procs):
+            out, _ = pr.communicate(timeout=1500)
+            ls = [l for l in out.split('\n') if l.startswith('{')]
+            ok = [l for l in ls if l.endswith('}')]
+            for l in ok: f.write(l + '\n')
+            nlen += len(ok)
+            if pr.returncode != 0 or len(ok) != (b - a + 1) * 4:
+                # the process ended before its last length (sanitizer report, crash): the call it was in did not come back
+                m = (ls[-1] if ls and not ls[-1].endswith('}') else '{"e":"Sort","kind":"event","keys":[],"in":[],"n":-1')
+                f.write(m + ',"crash":true}\n')
     lens = collections.Counter(); distinct = set(); samples = []; nontriv = 0; elems = 0
     good = []
     with open(trace, 'rb') as f:
@@ -48,7 +67,7 @@ def run(tier, seed):
     cov = {'states': e1['states'], 'transitions': e1['transitions'], 'traces_validated_against_impl': len(chunks),
            'samples': samples, 'evaluations': v['n'], 'distinct_nontrivial': nontriv,
            'rule': 'one case = one sort call (kind, key table, input order); non-trivial = length >= 2. Every length 0..70 (quick) / 0..300 (thorough) x key alphabets {1,2,3,sqrt n,n} x {random, ascending, descending, organ pipe, nearly sorted, sawtooth}; lengths around 256/512/1024/2048/4096; seeded random arrays; 60 (thorough 700) arrays of seeded random length 1200..5000',
-           'elements_sorted': elems, 'max_length': max(lens) if lens else 0, 'distinct_lengths': len(lens),
+           'elements_sorted': elems, 'calls_on_sanitizer_build_every_length_0_4200': nlen, 'max_length': max(lens) if lens else 0, 'distinct_lengths': len(lens),
            'mismatching_lines': v['nbad'], 'skipped_undefined': v['nskip'],
            'e1': 'SortE1: for every permutation-with-ties input of length <= 5 over 3 keys (incl. all-day/timed/whole-second of one day) exactly one output satisfies IsStableSortedPerm, and it is the insertion-sort result',
            'exhaustive': False}
